@@ -19,8 +19,8 @@ from fsmc.explorer import ProductSystem
 PID = "C12"
 RULE = ("states = displacement fields on a lattice of 9 values per junction (4 junctions), and series configurations within the deviation bound; "
         "non-trivial = some junction moves; classes = (field signature | motion, level, length, renumbering, cm, guess)")
-BOUND = {"quick": "all 6561 lattice fields for delta = 0.95 x the binding displacement bound on a compact base (+ deviation bound 2 for delta = 0.2), series product with deviation bound 2",
-         "thorough": "all 6561 fields for both deltas on two bases and both numberings; series product with deviation bound 3"}
+BOUND = {"quick": "all 9^4 lattice fields (4 mutually neighbouring junctions x rest / 8 directions) at 0.95 and 0.4 of the binding displacement bound on a compact base and at 0.95 on a 20-cell base, each under 4 combinations of (numbering, storage order) of the two frames; on a hexagonal lattice 9.5 spacings wide all 13 x 5^3 bond-aligned fields (central junction along its bonds, neighbours towards / away from it, two magnitudes) under the same 4 combinations; series product (motion, level, length, numbering, cm, guess, length unit) with deviation bound 2",
+         "thorough": "compact base under 9 numbering combinations, 20-cell base under 4; bond-aligned fields with 5 magnitudes (31 x 11^3) on one hexagonal lattice and 2 magnitudes on two more (one curved); series product with deviation bound 3"}
 ASSUMPTIONS = ["bounds of the statement are evaluated on the generated geometry: displacement < 0.5 x smallest junction spacing (both frames), < 8% of the extent "
                "of the interface end points of both frames, bounding-box shape change < 10% of that extent; instances outside give no verdict"]
 REQUIRED_TAGS = {"all": ["inside_bounds", "outside_bounds", "renumbered", "cm", "guess_true", "guess_wrong", "len>2", "roundtrip_checked", "binding:spacing", "binding:extent", "large_length_unit", "small_length_unit"]}
@@ -313,5 +313,8 @@ def build(tier, seed):
                 LatticeFields("hex6x4", None, [1.0], 4, [["id"], STORED_REV], [["id"], STORED_REV], mob=["id"], theta=0.0, bonds=[0.85, 0.65]),
                 Series([["v5x5", small], ["v5x4", None], ["v4x4p%d" % (seed + 1), None]], 2)]
     return [LatticeFields("v5x5", small, [0.95, 0.4], 4, [["id"], ["rev"], ["rot", 5]], [["id"], ["rev"], ["rot", 3]]),
-            LatticeFields("v5x4", None, [0.95, 0.4], 4, [["gap", 3, 7]]),
+            LatticeFields("v5x4", None, [0.95, 0.4], 4, [["gap", 3, 7], STORED_REV], [["id"], STORED_REV]),
+            LatticeFields("hex6x4", None, [1.0], 4, [["id"], STORED_REV, ["rot", 7]], [["id"], STORED_REV], mob=["id"], theta=0.0, bonds=[0.9, 0.85, 0.75, 0.65, 0.4]),
+            LatticeFields("hex6x6", None, [1.0], 4, [["id"], STORED_REV], [["id"], STORED_REV], mob=["id"], theta=0.0, bonds=[0.85, 0.65]),
+            LatticeFields("hex5x6", None, [1.0], 4, [["id"], STORED_REV], [["id"], STORED_REV], mob=["m", 0.02, 0.01], theta=0.0, bonds=[0.85, 0.65]),
             Series([["v5x5", small], ["v5x4", None], ["v5x5", None], ["v4x4p%d" % (seed + 1), None]], 3)]
